@@ -31,7 +31,7 @@ man = {
         "guard": "cargo feature `verif` of minimal-lexical (off by default)",
         "enable": "the harness crate depends on the staged copy of /repo with features = [\"verif\"]; e.g. cargo build --features verif",
         "baseline_off_cmd": "cd /repo && cargo test --workspace --no-fail-fast --offline",
-        "source_commits": ["96244af"],
+        "source_commits": ["96244afee0f6b59386329f71192dddfaf61d5ed8"],
         "add_only": True,
     },
     "engines": [
